@@ -83,23 +83,24 @@ ASSUMPTIONS = [
 MIN = {
     'quick': {'lock_cases': 700, 'lock_convergence_verdicts': 650,
               'pub_fail_xlock': 700, 'pub_fail_slock': 700,
-              'pub_fail_injected': 700, 'atomic_batches': 130,
-              'fault_positions_raise': 900, 'fault_positions_kill': 170,
+              'pub_fail_injected': 700, 'atomic_batches': 80,
+              'fault_positions_raise': 500, 'fault_positions_kill': 100,
               'threshold_cases': 12, 'threshold_recoveries': 12,
               'sync_checks_no_failure': 500,
-              'batch_changed_pri': 120},
+              'batch_changed_pri': 70},
     'thorough': {'lock_cases': 4600, 'lock_convergence_verdicts': 4000,
                  'pub_fail_xlock': 4300, 'pub_fail_slock': 4300,
-                 'pub_fail_injected': 4300, 'atomic_batches': 800,
-                 'fault_positions_raise': 6500,
-                 'fault_positions_kill': 7000, 'threshold_cases': 80,
+                 'pub_fail_injected': 4300, 'atomic_batches': 500,
+                 'fault_positions_raise': 3800,
+                 'fault_positions_kill': 4200, 'threshold_cases': 80,
                  'threshold_recoveries': 80,
-                 'sync_checks_no_failure': 5000, 'batch_changed_pri': 700},
+                 'sync_checks_no_failure': 5000, 'batch_changed_pri': 450},
 }
 NPAT = 256
-# case kinds are interleaved in cycles of 59 indices: 1 threshold case,
-# 10 atomicity cases, 48 lock-pattern cases (so 16 cycles = 3 x 256 patterns)
-CYCLE = 59
+# case kinds are interleaved in cycles of 55 indices: 1 threshold case,
+# 6 atomicity cases, 48 lock-pattern cases (so 16 cycles = 3 x 256 patterns)
+NATOMIC = 6
+CYCLE = 1 + NATOMIC + 48
 CYCLES = {'quick': 16, 'thorough': 96}
 CASE_TIMEOUT = 600
 
@@ -113,9 +114,9 @@ def case_kind(i):
     c, r = divmod(i, CYCLE)
     if r == 0:
         return 'threshold', c
-    if r <= 10:
-        return 'atomic', c * 10 + r - 1
-    return 'lock', c * 48 + r - 11
+    if r <= NATOMIC:
+        return 'atomic', c * NATOMIC + r - 1
+    return 'lock', c * 48 + r - 1 - NATOMIC
 
 
 # --------------------------------------------------------------------------
@@ -587,12 +588,10 @@ def classify_divergence(window_pri, last_pub, diff, recovered):
         else:
             other = True
     if reorder and not other:
-        d = diff[tables[0]]
-        if d['n_second'] and not d['n_first']:
-            return 'C21:pub-retry-merge-reorders:stale-row-resurrected'
-        if d['n_first'] and not d['n_second']:
-            return 'C21:pub-retry-merge-reorders:row-missing'
-        return 'C21:pub-retry-merge-reorders:stale-value'
+        # one root cause whatever the symptom (stale row back, stale
+        # value, row replaced away): statements of a failed batch are
+        # executed after statements of later batches
+        return 'C21:pub-retry-merge-reorders-statements'
     d = diff[tables[0]]
     return 'C21:pub-not-converged:' + (
         'rows-missing' if d['n_first'] and not d['n_second'] else
